@@ -430,6 +430,7 @@ def _backend_agreement(ctx) -> None:
     C07._py_forward(ctx)
     C07._py_backward(ctx)
     ctx.step(C13._py_duration_tabulate, ctx)      # the Python duration parser yields the exact value (the compiled one: C13's MIR rules)
+    ctx.step(C07._py_iso_tabulate, ctx)           # the Python date-time parser: the value denoted, or a ValueError - never another exception
     try:
         mir = mirfront.load()
         from .. import mirsym
